@@ -32,6 +32,7 @@ type Engine struct {
 	specs  map[string]*SpecFunc // "pkg\x00name" and "\x00name"
 	axioms []*Axiom
 	allCon []*Contract
+	stale    []string        // contracts whose function no longer exists (dropped; the verdict cannot be 'holds')
 	purePkgs map[string]bool // assumption A4: functions of these packages are pure functions of their arguments
 	immHeaps map[string]bool // heap components never written by /repo (fields of struct types of pure packages)
 	pureElemHeaps map[string]bool // element heaps of slices of pure-package node types (written only where an accessor result is allocated)
@@ -141,6 +142,13 @@ func (e *Engine) LoadContracts() error {
 		}
 		for _, c := range sf.Contracts {
 			if err := e.bindContract(c); err != nil {
+				if strings.Contains(err.Error(), "contract-stale") {
+					// the function a contract names no longer exists (renamed, split, closure moved): the contract is
+					// dropped and the check goes on -- what the statics, the other units and the stand-ins find
+					// is still reported; with nothing found the verdict is UNDECIDED, never "holds"
+					e.stale = append(e.stale, err.Error())
+					continue
+				}
 				return err
 			}
 			e.allCon = append(e.allCon, c)
